@@ -19,7 +19,16 @@ schedule gives the same sketches when no call fails, `Sourmash.C03.sig_add`).  `
 updated independently — the sketch that `Spec/SetOps.lean` defines for the hashes that
 `Spec/Kmers.lean` (windows, genetic code; not the state machine) assigns to the sequence under that
 sketch's own ksize / molecule / seed.  After a failing call on several threads the implementation's
-state depends on the schedule; the harness then answers `err <Variant> legal` (see c03.rs).  -/
+state depends on the schedule; the harness then answers `err <Variant> legal` (see c03.rs).
+
+C-API stream.  The ops `cnew cobs cparams cadd caddm crmmany cmerge caddfrom crmfrom cisize ccc` are
+the native op of the same name without the `c`, executed by the harness through the exported
+`kmerminhash_*` function: they are answered by the same model function and the same spec expression
+(`cisize`: the model is `capiIntersectionUnionSize`, which swallows the error; the spec still demands
+the rejection).  `cisect D A B` (the sketch returned by `kmerminhash_intersection`), `csetab`
+(`kmerminhash_set_abundances`) and `ccompat` (`kmerminhash_is_compatible`) exist only there.
+`newmh R max_hash …` makes a sketch whose ceiling is given directly (builder / deserialised sketch)
+instead of derived from a scaled value: `Sk.maxHash` is a free field of the model.  -/
 open Driver SetOps SetSpec
 
 /-- spec-side register: parameters and the multiset of (hash, abundance) insertions it stands for -/
@@ -84,7 +93,28 @@ def lookP (ps : List (Nat × Nat)) (h : Nat) : Nat :=
 
 def resp (st : St) (m s : String) : Resp := { model := m, spec := if st.nospec then "-" else s }
 
-def binop (st : St) (op : String) (r1 r2 : Nat) : St × Resp :=
+def showMol : Mol → String
+  | .dna => "dna" | .protein => "protein" | .dayhoff => "dayhoff" | .hp => "hp"
+
+def showParams (num maxHash ksize seed : Nat) (mol : String) (track : Bool) : String :=
+  s!"num={num} max_hash={maxHash} ksize={ksize} seed={seed} mol={mol} track={if track then 1 else 0}"
+
+/-- the common hashes the property assigns to a compatible pair (see `isect`) -/
+def specCommon (sa sb : SReg) : List Nat × Nat :=
+  let ka := sa.keys
+  let kb := sb.keys
+  if sa.num == 0 then (inter ka kb, unionSize ka kb)
+  else
+    -- num sketches: the estimate is taken inside the bottom-`num` of the union
+    let comb := (union ka kb).take sa.num
+    (inter (inter ka kb) comb, comb.length)
+
+/-- the native op behind a C-API op name -/
+def capiOf (op : String) : Option String :=
+  if ["cnew", "cobs", "cparams", "cadd", "caddm", "crmmany", "cmerge", "caddfrom", "crmfrom", "cisize", "ccc"].contains op
+  then some (op.drop 1).toString else none
+
+def binop (st : St) (capi : Bool) (op : String) (r1 r2 : Nat) : St × Resp :=
   match getR st.regs r1, getR st.regs r2, getR st.sregs r1, getR st.sregs r2 with
   | some a, some b, some sa, some sb =>
     if op == "merge" then
@@ -112,6 +142,9 @@ def binop (st : St) (op : String) (r1 r2 : Nat) : St × Resp :=
           match intersection st.kind a b with
           | .ok (c, u) => "common=" ++ showNats c ++ " union=" ++ toString u
           | .error e => showErr e
+        else if capi then
+          let (c, u) := capiIntersectionUnionSize a b
+          "common=" ++ toString c ++ " union=" ++ toString u
         else
           match intersectionSize st.kind a b with
           | .ok (c, u) => "common=" ++ toString c ++ " union=" ++ toString u
@@ -119,14 +152,7 @@ def binop (st : St) (op : String) (r1 r2 : Nat) : St × Resp :=
       let s := match specCompat sa sb with
         | some e => e
         | none =>
-          let ka := sa.keys
-          let kb := sb.keys
-          let (c, u) :=
-            if sa.num == 0 then (inter ka kb, unionSize ka kb)
-            else
-              -- num sketches: the estimate is taken inside the bottom-`num` of the union
-              let comb := (union ka kb).take sa.num
-              (inter (inter ka kb) comb, comb.length)
+          let (c, u) := specCommon sa sb
           if op == "isect" then "common=" ++ showNats c ++ " union=" ++ toString u
           else "common=" ++ toString c.length ++ " union=" ++ toString u
       (st, resp st m s)
@@ -241,7 +267,7 @@ def sigReq (threads : String) (force isProt : Bool) (specs : String) (seqs : Lis
   { model := sigModel threads.toNat! force isProt sig bs,
     spec := sigSpec threads.toNat! force isProt (sig.map (·.2)) (sig.map (fun _ => [])) bs }
 
-def stepC03 (st : St) (ws : List String) : St × Resp :=
+def stepCore (st : St) (capi : Bool) (ws : List String) : St × Resp :=
   match ws with
   | "case" :: _ :: ty :: rest =>
     ({ kind := if ty == "tree" then .tree else .vec, nospec := rest.contains "nospec" }, { model := "ok" })
@@ -254,6 +280,49 @@ def stepC03 (st : St) (ws : List String) : St × Resp :=
     let sr : SReg := { num := num.toNat!, maxHash := Scaled.maxHashForScaled scaled.toNat!, ksize := ksize.toNat!,
                        seed := seed.toNat!, mol := mol, track := tr, src := [] }
     ({ st with regs := setR st.regs r sk, sregs := setR st.sregs r sr }, { model := "ok" })
+  | ["newmh", r, maxHash, num, ksize, mol, seed, track] =>
+    let r := r.toNat!
+    let tr := track == "1"
+    let sk : Sk := { num := num.toNat!, maxHash := maxHash.toNat!, ksize := ksize.toNat!, seed := seed.toNat!,
+                     mol := parseMol mol, mins := [], abunds := if tr then some [] else none }
+    let sr : SReg := { num := num.toNat!, maxHash := maxHash.toNat!, ksize := ksize.toNat!,
+                       seed := seed.toNat!, mol := mol, track := tr, src := [] }
+    ({ st with regs := setR st.regs r sk, sregs := setR st.sregs r sr }, { model := "ok" })
+  | ["params", r] =>
+    match getR st.regs r.toNat!, getR st.sregs r.toNat! with
+    | some a, some sa =>
+      (st, resp st (showParams a.num a.maxHash a.ksize a.seed (showMol a.mol) a.track)
+                   (showParams sa.num sa.maxHash sa.ksize sa.seed sa.mol sa.track))
+    | _, _ => (st, { model := "bad-reg" })
+  | ["cisect", d, r1, r2] =>
+    match getR st.regs r1.toNat!, getR st.regs r2.toNat!, getR st.sregs r1.toNat!, getR st.sregs r2.toNat! with
+    | some a, some b, some sa, some sb =>
+      let d := d.toNat!
+      let (st', m) := match capiIntersection a b with
+        | .ok r => ({ st with regs := setR st.regs d r }, r.obs)
+        | .error e => (st, showErr e)
+      match specCompat sa sb with
+      | some e => (st', resp st m e)
+      | none =>
+        -- a sketch with the parameters of the first operand holding exactly the common hashes
+        let sd := { sa with src := (specCommon sa sb).1.map (fun h => (h, 1)) }
+        ({ st' with sregs := setR st'.sregs d sd }, resp st m sd.obs)
+    | _, _, _, _ => (st, { model := "bad-reg" })
+  | ["csetab", r, clear, items] =>
+    let r := r.toNat!
+    match getR st.regs r, getR st.sregs r with
+    | some a, some sa =>
+      let ps := parsePairs items
+      let a' := capiSetAbundances a ps (clear == "1")
+      let sa' := { sa with src := (if clear == "1" then [] else sa.src) ++ ps }
+      ({ st with regs := setR st.regs r a', sregs := setR st.sregs r sa' }, resp st a'.obs sa'.obs)
+    | _, _ => (st, { model := "bad-reg" })
+  | ["ccompat", r1, r2] =>
+    match getR st.regs r1.toNat!, getR st.regs r2.toNat!, getR st.sregs r1.toNat!, getR st.sregs r2.toNat! with
+    | some a, some b, some sa, some sb =>
+      (st, resp st (match checkCompatible a b with | .ok _ => "compatible=1" | .error _ => "compatible=0")
+                   (if (specCompat sa sb).isNone then "compatible=1" else "compatible=0"))
+    | _, _, _, _ => (st, { model := "bad-reg" })
   | ["copy", r1, r2] =>
     match getR st.regs r2.toNat!, getR st.sregs r2.toNat! with
     | some a, some sa => ({ st with regs := setR st.regs r1.toNat! a, sregs := setR st.sregs r1.toNat! sa }, { model := "ok" })
@@ -263,7 +332,7 @@ def stepC03 (st : St) (ws : List String) : St × Resp :=
     | some a, some sa => (st, resp st a.obs sa.obs)
     | _, _ => (st, { model := "bad-reg" })
   | [op, r, items] =>
-    if !(op == "add" || op == "addm" || op == "rmmany") then binop st op r.toNat! items.toNat! else
+    if !(op == "add" || op == "addm" || op == "rmmany") then binop st capi op r.toNat! items.toNat! else
     let r := r.toNat!
     match getR st.regs r, getR st.sregs r with
     | some a, some sa =>
@@ -299,5 +368,13 @@ def stepC03 (st : St) (ws : List String) : St × Resp :=
       (st, resp st m s)
     | _, _, _, _ => (st, { model := "bad-reg" })
   | _ => (st, { model := "bad-op" })
+
+def stepC03 (st : St) (ws : List String) : St × Resp :=
+  match ws with
+  | op :: rest =>
+    match capiOf op with
+    | some native => stepCore st true (native :: rest)
+    | none => stepCore st false ws
+  | [] => stepCore st false ws
 
 def main : IO Unit := Driver.run ({} : St) stepC03
